@@ -1,8 +1,10 @@
 //! World histories: the whole protocol deployed in cw-multi-test, driven by state-dependent random
-//! transactions (mode `world`) or by the `TX` lines of an earlier trace (mode `replay`).
+//! transactions (modes `world`, `fault`, `twin`) or by the `TX` lines of an earlier trace (mode `replay`).
 //!
 //! Lines: `CFG` (deployment), `OBS` (complete observable state, after deployment and after every
 //! transaction), `TX` (one transaction and its outcome), `QRY` (engine queries about 1–2 positions).
+//! `fault` adds `fault=<j> fired=<0|1>` to TX lines of executions with an injected sub-call failure
+//! (their OBS has `k=<step>f<j>`); `twin` adds `w=A|B` after `h=` on every line.
 pub mod cfg;
 pub mod deploy;
 pub mod gen;
@@ -12,33 +14,51 @@ use crate::rng::Rng;
 use crate::stats::Stats;
 use cfg::Cfg;
 use deploy::World;
+use std::collections::HashMap;
 use std::io::Write;
 use tx::{parse_tx, tx_line, Msg, Tx, TxResult};
 
+/// inserts ` w=<tag>` after the `h=` token
+fn tagged(line: String, tag: &Option<String>) -> String {
+    match tag {
+        None => line,
+        Some(t) => {
+            let mut parts: Vec<String> = line.split(' ').map(|x| x.to_string()).collect();
+            if let Some(i) = parts.iter().position(|p| p.starts_with("h=")) {
+                parts.insert(i + 1, format!("w={}", t));
+            }
+            parts.join(" ")
+        }
+    }
+}
+
 /// One history being executed: the world, the successful transactions so far (for restoration after a
-/// contract panic) and the last printed state.
+/// contract panic or a swallowed fault) and the last printed state.
 pub struct Runner {
     pub world: World,
     pub done: Vec<Tx>,
     pub last_body: String,
     pub last_height: u64,
+    pub tag: Option<String>,
+    /// replaying a trace: `fault=` lines stay fault lines even when the fault is no longer reached
+    pub replaying: bool,
 }
 
 impl Runner {
     /// Deploys, prints `CFG` and `OBS k=init`. `None` when deployment failed.
-    pub fn start(cfg: &Cfg, out: &mut dyn Write, stats: &mut Stats) -> Option<Runner> {
+    pub fn start(cfg: &Cfg, tag: Option<String>, out: &mut dyn Write, stats: &mut Stats) -> Option<Runner> {
         match World::deploy(cfg) {
             Ok(world) => {
-                writeln!(out, "{}", cfg.line(true)).unwrap();
+                writeln!(out, "{}", tagged(cfg.line(true), &tag)).unwrap();
                 let body = world.observe_body();
-                writeln!(out, "{}", world.obs_line("init", &body)).unwrap();
+                writeln!(out, "{}", tagged(world.obs_line("init", &body), &tag)).unwrap();
                 stats.count("setup", "ok");
                 stats.count("cfg", &format!("{}:{}", if cfg.native { "native" } else { "cw20" }, if cfg.real_feed { "real" } else { "mock" }));
                 let last_height = world.app.block_info().height;
-                Some(Runner { world, done: vec![], last_body: body, last_height })
+                Some(Runner { world, done: vec![], last_body: body, last_height, tag, replaying: false })
             }
             Err(e) => {
-                writeln!(out, "{}", cfg.line(false)).unwrap();
+                writeln!(out, "{}", tagged(cfg.line(false), &tag)).unwrap();
                 stats.count("setup", &format!("failed:{}", e));
                 None
             }
@@ -61,22 +81,58 @@ impl Runner {
         }
     }
 
-    /// Executes one transaction and prints its `TX`, `OBS` and `QRY` lines.
+    /// Executes one transaction and prints its lines. With `tx.fault = Some(j)` the j-th sub-call is
+    /// made to fail; if it was reached the lines are the fault lines (`TX … fault= fired=`, `OBS k=<k>f<j>`),
+    /// otherwise this was the plain execution and the plain `TX`/`OBS`/`QRY` lines are printed.
     pub fn step(&mut self, tx: &Tx, out: &mut dyn Write, stats: &mut Stats) -> TxResult {
         let h = self.world.cfg.h;
         let res = self.world.exec_tx(tx);
+        let kind = tx.msg.kind();
+        let fault_line = tx.fault.is_some() && (res.fired || self.replaying);
         if res.panicked {
             self.restore(stats);
             self.world.set_block(tx.height, tx.time);
             let same = self.world.observe_body() == self.last_body;
             stats.count("panic", if same { "restored_same" } else { "restored_diff" });
+        } else if fault_line {
+            if res.ok {
+                // the transaction went through although a sub-call failed (or, in replay, the fault
+                // index is no longer reached): undo it so that the history continues from the pre-state
+                stats.count("fault", if res.fired { "swallowed" } else { "not_reached_in_replay" });
+                if res.fired {
+                    stats.count("fault_swallowed", kind);
+                }
+                self.restore(stats);
+                self.world.set_block(tx.height, tx.time);
+            }
         } else if res.ok {
-            self.done.push(tx.clone());
+            let mut t = tx.clone();
+            t.fault = None;
+            self.done.push(t);
         }
-        let line = tx_line(h, tx, &res);
+        if fault_line {
+            let j = tx.fault.unwrap();
+            let line = tagged(tx_line(h, tx, &res), &self.tag);
+            writeln!(out, "{}", line).unwrap();
+            let body = self.world.observe_body();
+            writeln!(out, "{}", tagged(self.world.obs_line(&format!("{}f{}", tx.k, j), &body), &self.tag)).unwrap();
+            stats.count("fault_kind", &format!("{}:{}", kind, j));
+            if res.fired {
+                stats.count("fault_fired", kind);
+                stats.count("fault", "fired");
+            }
+            if body != self.last_body {
+                stats.count("fault", "state_changed_by_failed_tx");
+            }
+            stats.distinct(&line);
+            return res;
+        }
+        let mut plain = tx.clone();
+        plain.fault = None;
+        let line = tagged(tx_line(h, &plain, &res), &self.tag);
         writeln!(out, "{}", line).unwrap();
         let body = self.world.observe_body();
-        writeln!(out, "{}", self.world.obs_line(&tx.k.to_string(), &body)).unwrap();
+        writeln!(out, "{}", tagged(self.world.obs_line(&tx.k.to_string(), &body), &self.tag)).unwrap();
         // queries about up to two stored positions, chosen as a function of the transaction only
         let ps = self.world.positions();
         if !ps.is_empty() {
@@ -91,11 +147,10 @@ impl Runner {
                 chosen.push(j);
             }
             for i in chosen {
-                writeln!(out, "{}", self.world.qry_line(tx.k, &ps[i])).unwrap();
+                writeln!(out, "{}", tagged(self.world.qry_line(tx.k, &ps[i]), &self.tag)).unwrap();
             }
         }
         // statistics
-        let kind = tx.msg.kind();
         let coll = if self.world.cfg.native { "native" } else { "cw20" };
         let same_block = tx.height == self.last_height;
         stats.count("tx", kind);
@@ -106,6 +161,9 @@ impl Runner {
             if res.ok {
                 let partial = res.actions.iter().any(|a| a == "partial_liquidation_reply");
                 stats.count("liq_ok", &format!("{}:{}", if partial { "partial" } else { "full" }, coll));
+                if res.xf.iter().any(|x| x.0 == cfg::IFUND && x.1 == cfg::ENGINE) {
+                    stats.count("liq_ok", &format!("with_insurance_draw:{}", coll));
+                }
             } else {
                 stats.count("liq_err", &res.err);
             }
@@ -124,10 +182,10 @@ impl Runner {
 pub fn run(seed: u64, count: u64, out: &mut dyn Write, stats: &mut Stats) {
     let mut r = Rng::new(seed ^ 0x5EED_0003);
     for h in 0..count {
-        let cfg = cfg::gen_cfg(&mut r, h, seed);
+        let cfg = cfg::gen_cfg(&mut r, h, seed, None);
         let ntx = r.range(10, 60);
-        let mut g = gen::GenCtx::new(&mut r, ntx);
-        let mut runner = match Runner::start(&cfg, out, stats) {
+        let mut g = gen::GenCtx::new(&mut r, ntx, gen::Mode::World);
+        let mut runner = match Runner::start(&cfg, None, out, stats) {
             Some(x) => x,
             None => continue,
         };
@@ -139,25 +197,144 @@ pub fn run(seed: u64, count: u64, out: &mut dyn Write, stats: &mut Stats) {
     }
 }
 
-pub fn replay(input: &str, out: &mut dyn Write, stats: &mut Stats) {
-    let mut cur: Option<Runner> = None;
-    for line in input.lines() {
-        if line.starts_with("CFG ") {
-            cur = match Cfg::parse(line) {
-                Some(cfg) => Runner::start(&cfg, out, stats),
-                None => {
-                    stats.count("replay", "bad_cfg");
-                    None
-                }
-            };
-        } else if line.starts_with("TX ") {
-            if let Some(runner) = cur.as_mut() {
-                match parse_tx(line) {
-                    Some(tx) => {
-                        runner.step(&tx, out, stats);
+pub const FAULT_CAP: u64 = 24;
+
+/// fault injection: every transaction with a message tree is first executed once per sub-call with that
+/// sub-call failing, then plainly
+pub fn run_fault(seed: u64, count: u64, out: &mut dyn Write, stats: &mut Stats) {
+    let mut r = Rng::new(seed ^ 0x5EED_0004);
+    let mut max_sub: HashMap<&'static str, u64> = HashMap::new();
+    for h in 0..count {
+        let cfg = cfg::gen_cfg(&mut r, h, seed, None);
+        let ntx = r.range(10, 60);
+        let mut g = gen::GenCtx::new(&mut r, ntx, gen::Mode::Fault);
+        let mut runner = match Runner::start(&cfg, None, out, stats) {
+            Some(x) => x,
+            None => continue,
+        };
+        for k in 0..ntx {
+            let tx = gen::gen_step(&runner.world, &mut r, &mut g, k, stats);
+            let mut final_res: Option<TxResult> = None;
+            if let Some(start) = tx.msg.fault_start() {
+                for j in start..=FAULT_CAP {
+                    let mut t = tx.clone();
+                    t.fault = Some(j);
+                    let res = runner.step(&t, out, stats);
+                    if !res.fired {
+                        final_res = Some(res);
+                        break;
                     }
-                    None => stats.count("replay", "bad_tx"),
                 }
+            }
+            let res = match final_res {
+                Some(x) => x,
+                None => runner.step(&tx, out, stats),
+            };
+            let e = max_sub.entry(tx.msg.kind()).or_insert(0);
+            if res.subcalls > *e {
+                *e = res.subcalls;
+            }
+            stats.count("subcalls", &format!("{}:{}", tx.msg.kind(), res.subcalls));
+            g.feedback(&tx, &res);
+        }
+    }
+    for (k, v) in max_sub {
+        for _ in 0..v {
+            // encoded as a counter so that it lands in the JSON: value = maximum number of sub-calls
+            stats.count("max_subcalls", k);
+        }
+    }
+}
+
+/// state tokens that must coincide in twin worlds (everything but the collateral identity and allowances)
+fn comparable(body: &str) -> String {
+    body.split(' ')
+        .filter(|t| !(t.starts_with("e.coll=") || t.starts_with("fp.tokens=") || t.starts_with("allow=")))
+        .collect::<Vec<_>>()
+        .join(" ")
+}
+
+/// the same history on a cw20 deployment (A) and a native one (B) in lock-step
+pub fn run_twin(seed: u64, count: u64, out: &mut dyn Write, stats: &mut Stats) {
+    let mut r = Rng::new(seed ^ 0x5EED_0005);
+    for h in 0..count {
+        let cfg_a = cfg::gen_cfg(&mut r, h, seed, Some((false, 6)));
+        let mut cfg_b = cfg_a.clone();
+        cfg_b.native = true;
+        cfg_b.allow = vec![];
+        let ntx = r.range(10, 60);
+        let mut g = gen::GenCtx::new(&mut r, ntx, gen::Mode::Twin);
+        let a = Runner::start(&cfg_a, Some("A".to_string()), out, stats);
+        let b = Runner::start(&cfg_b, Some("B".to_string()), out, stats);
+        let (mut a, mut b) = match (a, b) {
+            (Some(a), Some(b)) => (a, b),
+            _ => continue,
+        };
+        for k in 0..ntx {
+            let in_sync = comparable(&a.last_body) == comparable(&b.last_body);
+            let tx = gen::gen_step(&a.world, &mut r, &mut g, k, stats);
+            let ra = a.step(&tx, out, stats);
+            let pulled: u128 = if ra.ok { ra.xf.iter().filter(|x| x.0 == tx.snd && x.1 != tx.snd).map(|x| x.2).sum() } else { 0 };
+            let mut tb = tx.clone();
+            tb.funds = pulled;
+            tb.msg = match tb.msg {
+                Msg::FpAdd { tok: 5 } => Msg::FpAdd { tok: 0 },
+                Msg::FpRm { tok: 5 } => Msg::FpRm { tok: 0 },
+                Msg::FpSend { tok: 5, amt, to } => Msg::FpSend { tok: 0, amt, to },
+                m => m,
+            };
+            let rb = b.step(&tb, out, stats);
+            let kind = tx.msg.kind();
+            let sync = if in_sync { "insync" } else { "diverged" };
+            stats.count("twin_ok", &format!("{}:A{}B{}", kind, ra.ok as u8, rb.ok as u8));
+            stats.count("twin_ok_sync", &format!("{}:A{}B{}:{}", kind, ra.ok as u8, rb.ok as u8, sync));
+            if ra.ok != rb.ok {
+                stats.count("twin_disagree", &format!("{}:A{}B{}:{}:{}|{}", kind, ra.ok as u8, rb.ok as u8, sync, ra.err, rb.err));
+            } else if ra.ok {
+                // net effect of the executed transfers per account
+                let net = |xf: &Vec<(u64, u64, u128)>| -> Vec<(u64, i128)> {
+                    let mut m: std::collections::BTreeMap<u64, i128> = std::collections::BTreeMap::new();
+                    for (f, t, a) in xf {
+                        *m.entry(*f).or_insert(0) -= *a as i128;
+                        *m.entry(*t).or_insert(0) += *a as i128;
+                    }
+                    m.into_iter().filter(|x| x.1 != 0).collect()
+                };
+                let same = net(&ra.xf) == net(&rb.xf);
+                stats.count("twin_net", &format!("{}:{}:{}", kind, if same { "same_net" } else { "different_net" }, sync));
+            }
+            g.feedback(&tx, &ra);
+        }
+    }
+}
+
+pub fn replay(input: &str, out: &mut dyn Write, stats: &mut Stats) {
+    let mut cur: HashMap<String, Runner> = HashMap::new();
+    for line in input.lines() {
+        let is_cfg = line.starts_with("CFG ");
+        let is_tx = line.starts_with("TX ");
+        if !is_cfg && !is_tx {
+            continue;
+        }
+        let tag: Option<String> = cfg::tokens(line).get("w").map(|s| s.to_string());
+        let key = tag.clone().unwrap_or_default();
+        if is_cfg {
+            cur.remove(&key);
+            match Cfg::parse(line) {
+                Some(cfg) => {
+                    if let Some(mut rn) = Runner::start(&cfg, tag, out, stats) {
+                        rn.replaying = true;
+                        cur.insert(key, rn);
+                    }
+                }
+                None => stats.count("replay", "bad_cfg"),
+            }
+        } else if let Some(runner) = cur.get_mut(&key) {
+            match parse_tx(line) {
+                Some(tx) => {
+                    runner.step(&tx, out, stats);
+                }
+                None => stats.count("replay", "bad_tx"),
             }
         }
     }
